@@ -322,6 +322,9 @@ func (p *strPool) root(r *mon.Rand) rootCfg {
 		rc.Prefix = p.names[r.Intn(len(p.names))] + "." + r.Ident(20)
 	}
 	rc.Sep = r.Pick(".", "_", "", "·", "::", "-")
+	if rc.Prefix != "" && r.Chance(1, 6) {
+		rc.Prefix += rc.sep() // a prefix that ends with the separator is passed on as it is
+	}
 	rc.Tags = p.tagMap(r, 3)
 	return rc
 }
